@@ -108,6 +108,21 @@ def _run(cmd: list[str], cwd: str, env: dict, log: str, timeout: float, stop_aft
                     p.wait()
                     rc = -7
                     break
+            if stop_after_viol:
+                try:
+                    with open(log, errors="replace") as rf:
+                        rf.seek(pos)
+                        chunk = rf.read()
+                        pos = rf.tell()
+                except OSError:
+                    chunk = ""
+                for m in re.finditer(r'<<"VIOL", "[^"]+", "([^"]+)"', chunk):
+                    seen.add(m.group(1))
+                if len(seen) >= stop_after_viol:
+                    p.kill()
+                    p.wait()
+                    rc = -8
+                    break
     return rc, open(log, errors="replace").read()
 
 
